@@ -3,8 +3,10 @@ C07 -- activeness and imputation follow one contract on every path.
 
 E1 (graph level): every spec of the scope x both encoders x every raw vector: active => owner exists,
 inactive => canonical value, unconditional variables always active, create=True/False agree,
-enumeration rows agree with decoding.  The assignment-manager level (every registered connection
-encoder) is explored by vf.props.c10's alphabet and reported there under the C07 laws (see c07m).
+enumeration rows agree with decoding.  Assignment-manager level (every registered connection encoder): the settings of
+vf.props.c10's alphabet that have conditionally existing connectors on both sides are run through c10's manager
+exploration and its C07 laws (inactive => canonical, unconditional variable always active, activeness independent of the raw
+vector that was corrected, listed activeness == decoded activeness) are reported here.
 """
 from vf import sweep, enumerate as en, families, proc
 
@@ -13,17 +15,20 @@ RULE = ('case = canonical spec x encoder, every raw vector decoded with and with
         'enumeration row re-decoded; non-trivial = spec with a conditionally active variable that is inactive in some '
         'decode; distinct = spec id')
 ASSUMPTIONS = ['owner existence is read from the decoded instance graph (choice origin / a source connector / the dv node)']
-CHUNK = 100
-REQUIRED_FEATURES = {'*': ['inactive_seen', 'enum_rows']}
+CHUNK = 10
+REQUIRED_FEATURES = {'*': ['inactive_seen', 'enum_rows', 'manager_level']}
 ENCODERS = ['COMPLETE', 'FAST']
 
 
 def scope_text(tier):
     return ('SEL-q + CC-1q + CON-1q + DV-1q' if tier == 'quick' else 'SEL-t + CC-1t + CON-1t + DV-1t') + \
-        '; encoders COMPLETE and FAST; full declared space; create flag both'
+        '; encoders COMPLETE and FAST; full declared space; create flag both; + assignment-manager level: 1x2, 2x1, 2x2 ' \
+        'connector settings with conditional connectors on both sides x every registered connection encoder'
 
 
 def cases(tier, seed):
+    for st in manager_cases(tier):       # first: the heaviest cases
+        yield dict(kind='manager', st=st)
     for spec in en.scope_specs('SEL-q' if tier == 'quick' else 'SEL-t'):
         yield dict(spec=spec)
     for fam in (families.cc1, families.con1, families.con3, families.dv1, families.cyc, families.diamond, families.unr):
@@ -31,12 +36,41 @@ def cases(tier, seed):
             yield dict(spec=spec)
 
 
+def manager_cases(tier):
+    import itertools
+    from vf.props import c10
+    T = c10.T5 if tier == 'quick' else c10.T6
+    pairs = list(itertools.combinations_with_replacement(T, 2))
+    for s in T:
+        for p in pairs:
+            yield dict(src=[s], tgt=list(p), ex='both', imputers='default')
+            yield dict(src=list(p), tgt=[s], ex='both', imputers='default')
+    pairs22 = pairs if tier != 'quick' else list(itertools.combinations_with_replacement(T[:3], 2))
+    for s in pairs22:
+        for t in pairs22:
+            yield dict(src=list(s), tgt=list(t), ex='both', imputers='default')
+
+
 def worker_init(tier, seed):
     from vf import env
+    from vf.props import c10
+    c10.worker_init(tier, seed)
     env.install_inline_limiter()
 
 
+def run_manager_case(case):
+    from vf.props import c10
+    r = c10.run_case(case['st'])
+    r['violations'] = [dict(v, case=dict(kind='manager', st=case['st'], encoder=v['case'].get('encoder'), pattern=v['case'].get('pattern')))
+                       for v in r['violations'] if v['kind'].startswith('C07-')]
+    r['features'] = dict(manager_level=1)
+    r['key'] = 'mgr:' + repr(case['st'])
+    return r
+
+
 def run_case(case):
+    if case.get('kind') == 'manager':
+        return run_manager_case(case)
     spec = case['spec']
     res = dict(evals=0, states=1, trans=0, nontrivial=False, key=en.spec_id(spec), features={}, violations=[])
 
